@@ -19,6 +19,7 @@ import NormModel.Model.Reports
 import NormModel.Model.Engine
 import NormModel.Model.Limits
 import NormModel.Model.Header
+import NormModel.Generated.Rules
 namespace Norm
 
 /-- `Highlight.from_token`: position of the token, `unsafe_length` = length of the value if any -/
@@ -75,5 +76,29 @@ def headerDiagsAux (srch : List Char → Bool) (toks : List Token) : List Segmen
 
 def headerDiagsRun (srch : List Char → Bool) (toks : List Token) (trace : List Segment) : List Diag :=
   headerDiagsAux srch toks trace {}
+
+/-! `CheckManyInstructions` (a check with `depends_on`: the registry runs it after a matched primary iff it is in that
+primary's dependency list, `Generated.dependencies` = `Registry().dependencies` of the real code):
+
+    if context.peek_token(0).pos[1] > 1:
+        context.new_error("TOO_MANY_INSTR", context.peek_token(0))
+-/
+
+/-- does the registry run `check` after the primary `primary` matched? -/
+def runsAfter (check primary : String) : Bool :=
+  match Generated.dependencies.find? (fun p => p.1 == primary) with
+  | some (_, cs) => cs.contains check
+  | none => false
+
+/-- `CheckManyInstructions.run` for one statement -/
+def manyInstrDiags (toks : List Token) (g : Segment) : List Diag :=
+  if runsAfter "CheckManyInstructions" g.rule then
+    match toks[g.start]? with
+    | some t => if 1 < t.col then [tokDiag "TOO_MANY_INSTR" t] else []
+    | none => []
+  else []
+
+def manyInstrDiagsRun (toks : List Token) (trace : List Segment) : List Diag :=
+  trace.flatMap (manyInstrDiags toks)
 
 end Norm
